@@ -1,10 +1,11 @@
 import RvModel.Hand.Dispatch
 import RvModel.Hand.DispatchC01B
 import RvModel.Hand.DispatchC01C
+import RvModel.Hand.DispatchC03
 import RvModel.Hand.DispatchC08
 import RvModel.Hand.DispatchC12
 import RvModel.Hand.DispatchC14
 /- all hand-written driver entries (integrator-maintained) -/
 namespace HandDispatch
-def table : List (String × Rd String) := tableC01A ++ tableC13 ++ tableC01B ++ tableC01C ++ tableC08 ++ tableC12 ++ HandDispatchC14.tableC14
+def table : List (String × Rd String) := tableC01A ++ tableC13 ++ tableC01B ++ tableC01C ++ tableC03 ++ tableC08 ++ tableC12 ++ HandDispatchC14.tableC14
 end HandDispatch
